@@ -218,4 +218,13 @@ def traj_consistency(ctx, bz, rng, N):
             order = (k + 1) if k < 4 else (k - 3)
             sc = np.maximum(np.abs(A).max(axis=1), (pm if k < 4 else np.abs(Ps[3]).max(axis=(1, 2))) * 16.0 ** order / Tn ** order)
             ctx.check_array("multirotor_" + nm, "bezier_multirotor", np.abs(A - B).max(axis=1) / np.maximum(sc, 1e-300), 1e-9, {"t": tn, "T": Tn})
+        # the outputs themselves are the Bezier curves of their control points (position septic, yaw cubic -- yaw control
+        # points range over +-10 rad: a planned turn through 180 degrees is a polynomial, not an angle wrapped into (-pi, pi])
+        evv = Ev("mrv", [t, T, PX, PY, PZ, Pp], [x, y, z, psi], probe=False)
+        M = min(N, 200)
+        vv, _ = evv(tn[:M], Tn[:M], *[p[:M] for p in Ps])
+        for k, nm in enumerate(("x", "y", "z", "psi")):
+            ref = np.array([float(exact_curve_derivative(Ps[k][i, 0], Tn[i], tn[i], 0)) for i in range(M)])
+            ctx.check_array("multirotor_output_is_bezier_curve", nm, np.abs(vv[k][:, 0, 0] - ref) / np.maximum(1, np.abs(Ps[k][:M]).max(axis=(1, 2))), 1e-9,
+                            {"t": tn[:M], "T": Tn[:M], "control_points": Ps[k][:M].reshape(M, -1)})
         ctx.distinct(np.concatenate([tn[:, None], Tn[:, None]] + [p.reshape(N, -1) for p in Ps], axis=1))
